@@ -142,7 +142,7 @@ func vhCheckReads(tag string, db *DB, rows []vhRow) {
 // vhCheckSearch asserts that Search(field op probe) denotes exactly the
 // matching rows, for one operator and an arbitrary probe.
 func vhCheckSearch(tag string, db *DB, rows []vhRow, field string) {
-	op := vhOps[vChoice("sop", len(vhOps))]
+	op := vhOps[vChoice("_sop", len(vhOps))]
 	var p interface{}
 	switch field {
 	case "A":
